@@ -1,8 +1,8 @@
-import Cuckoo.Proofs.Defs
+import Cuckoo.Proofs.PrimAux
 /-!
 Chunk B — the primitive mutations of the current bucket array (`add_to_bucket`,
 `del_from_bucket`, value update, one displacement hop) and completeness of the two-bucket
-lookup.  Helper lemmas only.
+lookup.  Helper lemmas only.  (Auxiliary lemmas live in `Cuckoo/Proofs/PrimAux.lean`.)
 -/
 namespace Cuckoo.Model
 open Cuckoo
@@ -18,7 +18,47 @@ theorem addTo_spec (c : Cfg κ) (t : Table κ ν) (b s : Nat) (k : κ) (v : ν) 
     Keeps c t (t.addTo c b s ⟨c.tag k, k, v⟩) ∧
     (t.addTo c b s ⟨c.tag k, k, v⟩).mlf = t.mlf ∧ (t.addTo c b s ⟨c.tag k, k, v⟩).mhp = t.mhp ∧
     (t.addTo c b s ⟨c.tag k, k, v⟩).workers = t.workers := by
-  sorry
+  have hblt : b < 2 ^ t.hp := by
+    rcases hb with rfl | rfl
+    · exact Spec.indexHash_lt _ _
+    · exact Spec.altIndex_lt _ _ _
+  have hlt := cell_lt h hblt hs
+  show Inv c (t.upd c b s (some ⟨c.tag k, k, v⟩) 1) ∧
+    (∀ sl, (t.upd c b s (some ⟨c.tag k, k, v⟩) 1).Live c sl ↔ (t.Live c sl ∨ sl = ⟨c.tag k, k, v⟩)) ∧
+    (t.upd c b s (some ⟨c.tag k, k, v⟩) 1).sumCnt = t.sumCnt + 1 ∧
+    Keeps c t (t.upd c b s (some ⟨c.tag k, k, v⟩) 1) ∧ _
+  have fr := upd_frame c t b s (some ⟨c.tag k, k, v⟩) 1
+  have hg := upd_get (t := t) (some ⟨c.tag k, k, v⟩) 1 hs hlt
+  have hat := upd_at (t := t) (some ⟨c.tag k, k, v⟩) 1 hs hlt
+  refine ⟨?_, ?_, upd_sumCnt h s _ 1 hblt, fr.keeps c, rfl, rfl, rfl⟩
+  · refine fr.inv h ?_ ?_ ?_
+    · intro b' s' sl hsl
+      rw [hg] at hsl
+      split at hsl
+      · rename_i e
+        cases hsl
+        exact ⟨rfl, by rw [e.1]; exact hb⟩
+      · exact h.cur_wf.place b' s' sl hsl
+    · intro b' s' hu
+      rw [hg]
+      split
+      · rename_i e
+        rw [e.1, hmig] at hu
+        cases hu
+      · exact h.unmig_empty b' s' hu
+    · apply uniq_of_at h hat
+      intro x hx p sl _ hp hk
+      cases hx
+      exact hfresh sl.tag sl.val ⟨p, by rw [hp]; cases sl; simp at hk; simp [hk]⟩
+  · intro sl
+    rw [live_of_at hat, others_of_none (show t.at c (.cur b s) = none from hempty)]
+    constructor
+    · rintro (h1 | h1)
+      · exact .inl h1
+      · cases h1; exact .inr rfl
+    · rintro (h1 | h1)
+      · exact .inl h1
+      · exact .inr (by rw [h1])
 
 theorem delFrom_spec (c : Cfg κ) (t : Table κ ν) (b s : Nat) (sl : Slot κ ν) (h : Inv c t)
     (hget : t.cur.get c.S b s = some sl) :
@@ -27,7 +67,33 @@ theorem delFrom_spec (c : Cfg κ) (t : Table κ ν) (b s : Nat) (sl : Slot κ ν
     (t.delFrom c b s).sumCnt = t.sumCnt - 1 ∧
     Keeps c t (t.delFrom c b s) ∧
     (t.delFrom c b s).mlf = t.mlf ∧ (t.delFrom c b s).mhp = t.mhp ∧ (t.delFrom c b s).workers = t.workers := by
-  sorry
+  have hblt : b < 2 ^ t.hp := Store.get_some_bucket_lt h.cur_wf.size hget
+  obtain ⟨hs, hlt⟩ := Store.get_some_lt hget
+  show Inv c (t.upd c b s none (-1)) ∧
+    (∀ x, (t.upd c b s none (-1)).Live c x ↔ (t.Live c x ∧ x.key ≠ sl.key)) ∧
+    (t.upd c b s none (-1)).sumCnt = t.sumCnt - 1 ∧
+    Keeps c t (t.upd c b s none (-1)) ∧ _
+  have fr := upd_frame c t b s none (-1)
+  have hg := upd_get (t := t) none (-1) hs hlt
+  have hat := upd_at (t := t) none (-1) hs hlt
+  refine ⟨?_, ?_, upd_sumCnt h s _ (-1) hblt, fr.keeps c, rfl, rfl, rfl⟩
+  · refine fr.inv h ?_ ?_ ?_
+    · intro b' s' sl hsl
+      rw [hg] at hsl
+      split at hsl
+      · cases hsl
+      · exact h.cur_wf.place b' s' sl hsl
+    · intro b' s' hu
+      rw [hg]
+      split
+      · rfl
+      · exact h.unmig_empty b' s' hu
+    · apply uniq_of_at h hat
+      intro x hx
+      cases hx
+  · intro x
+    rw [live_of_at hat, others_of_some h (show t.at c (.cur b s) = some sl from hget)]
+    simp
 
 theorem setVal_spec (c : Cfg κ) (t : Table κ ν) (b s : Nat) (sl : Slot κ ν) (v : ν) (h : Inv c t)
     (hget : t.cur.get c.S b s = some sl) :
@@ -37,7 +103,50 @@ theorem setVal_spec (c : Cfg κ) (t : Table κ ν) (b s : Nat) (sl : Slot κ ν)
     (t.setVal c b s v).cur.get c.S b s = some { sl with val := v } ∧
     Keeps c t (t.setVal c b s v) ∧
     (t.setVal c b s v).mlf = t.mlf ∧ (t.setVal c b s v).mhp = t.mhp ∧ (t.setVal c b s v).workers = t.workers := by
-  sorry
+  have hblt : b < 2 ^ t.hp := Store.get_some_bucket_lt h.cur_wf.size hget
+  obtain ⟨hs, hlt⟩ := Store.get_some_lt hget
+  have e : t.setVal c b s v = { t with cur := t.cur.set c.S b s (some { sl with val := v }) } := by
+    unfold Table.setVal; rw [hget]
+  rw [e]
+  have fr : Frame t { t with cur := t.cur.set c.S b s (some { sl with val := v }) } :=
+    ⟨rfl, by simp, rfl, rfl, fun _ => rfl, rfl, rfl, rfl⟩
+  have hg : ∀ b' s', ({ t with cur := t.cur.set c.S b s (some { sl with val := v }) } : Table κ ν).cur.get c.S b' s' =
+      if b' = b ∧ s' = s then some { sl with val := v } else t.cur.get c.S b' s' :=
+    fun b' s' => Store.get_set c.S t.cur b s b' s' _ hs hlt
+  have hat := at_of_get fr hg
+  have hq : t.at c (.cur b s) = some sl := hget
+  refine ⟨?_, ?_, rfl, ?_, fr.keeps c, rfl, rfl, rfl⟩
+  · refine fr.inv h ?_ ?_ ?_
+    · intro b' s' x hx
+      rw [hg] at hx
+      split at hx
+      · rename_i e
+        cases hx
+        rw [e.1]
+        exact h.cur_wf.place b s sl hget
+      · exact h.cur_wf.place b' s' x hx
+    · intro b' s' hu
+      rw [hg]
+      split
+      · rename_i e
+        rw [e.1] at hu
+        have := h.unmig_empty b s hu
+        rw [hget] at this; cases this
+      · exact h.unmig_empty b' s' hu
+    · apply uniq_of_at h hat
+      intro x hx p y hne hp hk
+      cases hx
+      exact hne (h.uniq p _ y sl hp hq hk)
+  · intro x
+    rw [live_of_at hat, others_of_some h hq]
+    constructor
+    · rintro (h1 | h1)
+      · exact .inl h1
+      · cases h1; exact .inr rfl
+    · rintro (h1 | h1)
+      · exact .inl h1
+      · exact .inr (by rw [h1])
+  · rw [hg, if_pos ⟨rfl, rfl⟩]
 
 /-- a validated hop moves one element to its alternate bucket: nothing observable changes -/
 theorem hop_spec (c : Cfg κ) (t t' : Table κ ν) (fr to : PathRec) (h : Inv c t)
@@ -46,7 +155,126 @@ theorem hop_spec (c : Cfg κ) (t t' : Table κ ν) (fr to : PathRec) (h : Inv c 
     (hslot : to.slot < c.S) (hmig : t.unmigB c to.bucket = false) :
     Inv c t' ∧ Same c t t' ∧ Keeps c t t' ∧ t'.cur.get c.S fr.bucket fr.slot = none ∧
     t'.locks = t.locks ∧ t'.old = t.old := by
-  sorry
+  unfold hop at hhop
+  split at hhop
+  · rename_i sl hto hfr
+    split at hhop
+    · rename_i hh
+      cases hhop
+      -- facts about the moved element
+      obtain ⟨hfs, hflt⟩ := Store.get_some_lt hfr
+      obtain ⟨htag, hplace⟩ := h.cur_wf.place _ _ _ hfr
+      have htb : to.bucket < 2 ^ t.hp := by rw [halt]; exact Spec.altIndex_lt _ _ _
+      have htlt := cell_lt h htb hslot
+      have hpk : Spec.partialKey fr.hash = c.tag sl.key := by rw [← hh]; rfl
+      have hto_place : to.bucket = c.i1 t.hp sl.key ∨ to.bucket = c.i2 t.hp sl.key := by
+        rw [halt, hpk]
+        rcases hplace with e | e
+        · right; rw [e]; rfl
+        · left; rw [e]
+          show Spec.altIndex t.hp (c.tag sl.key) (Spec.altIndex t.hp (c.tag sl.key) (c.i1 t.hp sl.key)) = _
+          exact Spec.altIndex_invol _ _ _ (Spec.indexHash_lt _ _)
+      have hne : ¬ (fr.bucket = to.bucket ∧ fr.slot = to.slot) := by
+        intro e
+        rw [e.1, e.2, hto] at hfr
+        cases hfr
+      -- the cells of the result
+      have hg : ∀ b' s', ((t.cur.set c.S to.bucket to.slot (some sl)).set c.S fr.bucket fr.slot none).get c.S b' s' =
+          if b' = fr.bucket ∧ s' = fr.slot then none
+          else if b' = to.bucket ∧ s' = to.slot then some sl else t.cur.get c.S b' s' := by
+        intro b' s'
+        rw [Store.get_set _ _ _ _ _ _ _ hfs (by simpa using hflt), Store.get_set _ _ _ _ _ _ _ hslot htlt]
+      have F : Frame t { t with cur := (t.cur.set c.S to.bucket to.slot (some sl)).set c.S fr.bucket fr.slot none } :=
+        ⟨rfl, by simp, rfl, rfl, fun _ => rfl, rfl, rfl, rfl⟩
+      generalize hT : ({ t with cur := (t.cur.set c.S to.bucket to.slot (some sl)).set c.S fr.bucket fr.slot none } : Table κ ν) = T at F
+      have hg' : ∀ b' s', T.cur.get c.S b' s' =
+          if b' = fr.bucket ∧ s' = fr.slot then none
+          else if b' = to.bucket ∧ s' = to.slot then some sl else t.cur.get c.S b' s' := by
+        rw [← hT]; exact hg
+      have hat : ∀ p, T.at c p = if p = .cur fr.bucket fr.slot then none
+          else if p = .cur to.bucket to.slot then some sl else t.at c p := by
+        intro p
+        cases p with
+        | cur b' s' =>
+          show T.cur.get c.S b' s' = _
+          rw [hg']
+          simp only [Loc.cur.injEq]
+          rfl
+        | old b' s' =>
+          rw [F.at_old]
+          simp
+      have hqf : t.at c (.cur fr.bucket fr.slot) = some sl := hfr
+      have hqt : t.at c (.cur to.bucket to.slot) = none := hto
+      have hnel : Loc.cur to.bucket to.slot ≠ Loc.cur fr.bucket fr.slot := by
+        intro e
+        rw [e, hqf] at hqt
+        cases hqt
+      refine ⟨?_, ⟨?_, ?_, ?_, ?_, ?_⟩, F.keeps c, ?_, ?_, ?_⟩
+      · refine F.inv h ?_ ?_ ?_
+        · intro b' s' x hx
+          rw [hg'] at hx
+          split at hx
+          · cases hx
+          · split at hx
+            · rename_i e
+              cases hx
+              rw [e.1]
+              exact ⟨htag, hto_place⟩
+            · exact h.cur_wf.place b' s' x hx
+        · intro b' s' hu
+          rw [hg']
+          split
+          · rfl
+          · split
+            · rename_i e
+              rw [e.1, hmig] at hu
+              cases hu
+            · exact h.unmig_empty b' s' hu
+        · intro p p' x x' hp hp' hk
+          rw [hat] at hp hp'
+          split at hp
+          · cases hp
+          split at hp'
+          · cases hp'
+          rename_i n1 n2
+          by_cases e : p = .cur to.bucket to.slot <;> by_cases e' : p' = .cur to.bucket to.slot
+          · rw [e, e']
+          · rw [if_pos e] at hp; rw [if_neg e'] at hp'
+            cases hp
+            exact absurd (h.uniq _ _ _ _ hp' hqf hk.symm) n2
+          · rw [if_neg e] at hp; rw [if_pos e'] at hp'
+            cases hp'
+            exact absurd (h.uniq _ _ _ _ hp hqf hk) n1
+          · rw [if_neg e] at hp; rw [if_neg e'] at hp'
+            exact h.uniq _ _ _ _ hp hp' hk
+      · intro x
+        constructor
+        · rintro ⟨p, hp⟩
+          rw [hat] at hp
+          split at hp
+          · cases hp
+          · split at hp
+            · cases hp; exact ⟨_, hqf⟩
+            · exact ⟨p, hp⟩
+        · rintro ⟨p, hp⟩
+          by_cases e : p = .cur fr.bucket fr.slot
+          · refine ⟨.cur to.bucket to.slot, ?_⟩
+            rw [hat, if_neg hnel, if_pos rfl, ← hqf, ← e, hp]
+          · refine ⟨p, ?_⟩
+            rw [hat, if_neg e, if_neg]
+            · exact hp
+            · intro e'
+              rw [e', hqt] at hp
+              cases hp
+      · rw [← hT]; rfl
+      · rw [← hT]
+      · rw [← hT]
+      · rw [← hT]
+      · rw [hg', if_pos ⟨rfl, rfl⟩]
+      · rw [← hT]
+      · rw [← hT]
+    · cases hhop
+  · cases hhop
 
 /-- a failed validation changes nothing (trivially: `hop` returns `none`) -/
 theorem hop_none_or_some (c : Cfg κ) (t : Table κ ν) (fr to : PathRec) :
@@ -59,7 +287,18 @@ theorem cuckooFind_spec [DecidableEq κ] (c : Cfg κ) (t : Table κ ν) (k : κ)
     match cuckooFind c t.cur (c.i1 t.hp k) (c.i2 t.hp k) k with
     | some (b, s) => ∃ sl, t.cur.get c.S b s = some sl ∧ sl.key = k ∧ (b = c.i1 t.hp k ∨ b = c.i2 t.hp k)
     | none => ∀ tag v, ¬ t.Live c ⟨tag, k, v⟩ := by
-  sorry
+  unfold cuckooFind
+  cases e1 : findInBucket c t.cur (c.i1 t.hp k) k with
+  | some s =>
+    obtain ⟨sl, hg, hk⟩ := findInBucket_some e1
+    exact ⟨sl, hg, hk, .inl rfl⟩
+  | none =>
+    cases e2 : findInBucket c t.cur (c.i2 t.hp k) k with
+    | some s =>
+      obtain ⟨sl, hg, hk⟩ := findInBucket_some e2
+      exact ⟨sl, hg, hk, .inr rfl⟩
+    | none =>
+      exact not_live_of_noKey h h1 h2 (findInBucket_none e1) (findInBucket_none e2)
 
 /-- the two scans of `cuckoo_insert` -/
 theorem tryInsert_spec [DecidableEq κ] (c : Cfg κ) (t : Table κ ν) (k : κ) (h : Inv c t)
@@ -67,6 +306,25 @@ theorem tryInsert_spec [DecidableEq κ] (c : Cfg κ) (t : Table κ ν) (k : κ) 
     match tryInsert c t.cur (c.i1 t.hp k) (c.i2 t.hp k) k with
     | .pos p => InsOK c t k p
     | .needCuckoo => ∀ tag v, ¬ t.Live c ⟨tag, k, v⟩ := by
-  sorry
+  unfold tryInsert
+  cases e1 : scanForInsert c t.cur (c.i1 t.hp k) k with
+  | dup s => exact scan_dup e1
+  | free r1 =>
+    cases e2 : scanForInsert c t.cur (c.i2 t.hp k) k with
+    | dup s => exact scan_dup e2
+    | free r2 =>
+      obtain ⟨n1, f1⟩ := scan_free e1
+      obtain ⟨n2, f2⟩ := scan_free e2
+      have nl := not_live_of_noKey h h1 h2 n1 n2
+      cases r1 with
+      | some s =>
+        obtain ⟨a, a'⟩ := f1 s rfl
+        exact ⟨.inl rfl, a, a', h1, nl⟩
+      | none =>
+        cases r2 with
+        | some s =>
+          obtain ⟨a, a'⟩ := f2 s rfl
+          exact ⟨.inr rfl, a, a', h2, nl⟩
+        | none => exact nl
 
 end Cuckoo.Model
